@@ -43,6 +43,7 @@ HOOK_COMMITS = [
     "80728f6 verif hook H4 (router): public wrapper for select_tree_rule under --cfg sozu_verif",
     "7aed797 verif hook H4 (state): public wrapper for diff_map under --cfg sozu_verif",
     "656ba2e verif hook H5: HttpsProxy::verif_listener accessor under --cfg sozu_verif (replay tests read listener tags)",
+    "4f582a1 verif hook H6: verif_stop_task_on_finish under --cfg sozu_verif (runs the private StopTask::on_finish for a replay test)",
 ]
 
 REGISTRY["C11"] = {
@@ -233,7 +234,7 @@ REGISTRY["C14"] = {
 REGISTRY["C01"] = {
     "engine": "kani+mir",
     "technique": "bounded model checking (Kani/CBMC, SAT) of the byte-conservation kernels: DATA split, frame header codec, DATA unpadding, Readiness wake-up algebra; symbolic execution of the MIR of ConnectionH2::handle_data_frame into SMT (z3 + cvc5) for the receive-side buffer accounting",
-    "level_text": "CBMC decides that the kernels every proxied body byte passes through conserve bytes: the converter's DATA split partitions a chunk into emitted part + pushed-back remainder, adjacent, in order, nothing duplicated (all windows/frame sizes/lengths); the 9-byte frame header codec is a bijection (all headers); DATA frame parsing returns exactly payload minus padding (all flags/lengths, 0..20 bytes); arm_writable/signal_pending_write always leave the session runnable for write (all 8-bit readiness states). Kernel level only. Engine M additionally decides, over the real MIR, the receive-side buffer accounting of handle_data_frame (slice rebased on the old head, head advanced by the wire length, credit in wire bytes) and that one pass of Mux::ready's event loop with an idle client either runs a handler or leaves the loop.",
+    "level_text": "CBMC decides that the kernels every proxied body byte passes through conserve bytes: the converter's DATA split partitions a chunk into emitted part + pushed-back remainder, adjacent, in order, nothing duplicated (all windows/frame sizes/lengths); the 9-byte frame header codec is a bijection (all headers); DATA frame parsing returns exactly payload minus padding (all flags/lengths, 0..20 bytes); arm_writable/signal_pending_write always leave the session runnable for write (all 8-bit readiness states). Kernel level only. Engine M additionally decides, over the real MIR, the receive-side buffer accounting of handle_data_frame (slice rebased on the old head, head advanced by the wire length, credit in wire bytes) that one pass of Mux::ready's event loop with an idle client either runs a handler or leaves the loop, and that ConnectionH1::writable never clears a response kawa's storage buffer in its 100/103 hand-over arms (the final response may already be in it).",
     "level_note": "Receive side: engine M decides over handle_data_frame's real MIR that the payload slice is rebased on the buffer head from before the advance, that the head then advances by exactly the wire payload length (padding skipped, never replayed as body) and that flow-control credit counts wire bytes; and over Mux::ready that one pass of the event loop with an idle client cannot be a no-op that keeps the loop alive (the state that burns the iteration budget and closes the session mid-response). Nothing else here runs a Mux/ConnectionH2/Pipe with sockets: finalize_write, delay_close_for_frontend_flush, rustls write paths, socket partial-write loops, stream interleaving and kawa's H1 parser are outside the claim (heap-rich I/O state machines CBMC cannot hold).",
     "rule": "C01: one harness per kernel.",
     "trusted_base": ["tracing (used by loona-hpack) switched off by three Kani stubs"],
@@ -250,6 +251,7 @@ REGISTRY["C01"] = {
           "after arm_writable the filtered readiness contains WRITABLE; signal_pending_write sets only the event bit; no other bit changes", ["lib/src/lib.rs"], min_covers=2),
         M("c01_h2_data_rx_buffer_accounting", "whole ConnectionH2::handle_data_frame (112 blocks); payload slice, wire length, head symbolic; lookups / resets / content-length bookkeeping uninterpreted", "slice.start := payload.start + old head; head := old head + wire_payload_len; both on exactly the append paths, with a chunk queued; received_bytes_since_update grows by the wire length", ["lib/src/protocol/mux/h2.rs"], prop="c01", which="data_rx"),
         M("c01_ready_no_silent_spin", "whole Mux::ready (370 blocks), every loop unrolled once (one full pass of the inner event loop, up to 2 backends), Ready/Readiness bit algebra modelled exactly, handlers uninterpreted", "with the client idle (filtered frontend readiness empty) a pass of the inner loop either runs a connection handler or leaves the loop: no state lets it repeat unchanged until MAX_LOOP_ITERATIONS closes the session with the response still buffered", ["lib/src/protocol/mux/mod.rs", "lib/src/lib.rs", "command/src/ready.rs"], prop="c01", which="ready_spin"),
+        M("c01_interim_response_keeps_storage", "whole ConnectionH1::writable (every loop unrolled once), Ready/Readiness bit algebra modelled exactly, callees uninterpreted", "with the response status line a 100 or 103 (the interim hand-over arms) no kawa::Buffer::clear on a response kawa's storage is reachable: Kawa::clear resets the parsed blocks only, the bytes of the final response already read stay in the buffer", ["lib/src/protocol/mux/h1.rs"], prop="c01", which="interim_storage"),
     ],
 }
 
@@ -284,7 +286,7 @@ ST = ["command/src/state.rs"]
 REGISTRY["C06"] = {
     "engine": "kani+mir",
     "technique": "bounded model checking (Kani/CBMC, SAT) of the diff merge-join and of the Backend ordering it is fed with",
-    "level_text": "CBMC decides, for all strictly increasing key sequences of length <= 3 on each side (keys and values symbolic u8), that the real state::diff_map iterator emits exactly the keys that differ, each once, in order, with the right Added/Removed/Changed kind, and nothing for equal inputs; and that response::Backend's Ord agrees with == (Equal iff all fields equal), is antisymmetric and transitive over small symbolic field domains. Bounded; the end-to-end 'apply diff(A,B) to A' on ConfigState is not executed by the solver (prost structs + BTreeMaps measured out of CBMC's reach) and is covered only by the native replay tests of the repaired finding. Engine M additionally decides the diff_map call-site precondition (both inputs sorted by the merge key).",
+    "level_text": "CBMC decides, for all strictly increasing key sequences of length <= 3 on each side (keys and values symbolic u8), that the real state::diff_map iterator emits exactly the keys that differ, each once, in order, with the right Added/Removed/Changed kind, and nothing for equal inputs; and that response::Backend's Ord agrees with == (Equal iff all fields equal), is antisymmetric and transitive over small symbolic field domains. Bounded; the end-to-end 'apply diff(A,B) to A' on ConfigState is not executed by the solver (prost structs + BTreeMaps measured out of CBMC's reach) and is covered only by the native replay tests of the repaired finding. Engine M additionally decides, over ConfigState::diff's real MIR, the diff_map call-site precondition (both inputs sorted by the merge key), that per frontend kind every Remove is emitted before any Add, and that the listener comparisons compare the two stored listeners themselves.",
     "level_note": "Listeners/clusters/frontends/certificates sections of diff and worker convergence are outside the claim. diff_map is instantiated at K=u8,V=u8 (generic code, one instantiation).",
     "rule": "C06: merge-join exactness + ordering consistency.",
     "trusted_base": [],
@@ -298,6 +300,8 @@ REGISTRY["C06"] = {
           "cmp == Equal <=> ==; cmp(a,b) == reverse(cmp(b,a)); reflexive", ["command/src/response.rs"], min_covers=2),
         M("c06_diff_map_inputs_sorted", "all diff_map call sites of ConfigState::diff (regenerated MIR)", "both inputs of every diff_map call are BTreeMap iterations (the strictly-increasing-keys precondition of c06_diff_map_exact) and backends are joined on (cluster, backend_id, address); decided by inspecting the call-site types, no solver query", ST, prop="c06"),
         K("c06::c06_backend_order_transitive", "three backends differing in address/port/backup; unwind 6", "a<=b and b<=c => a<=c", ["command/src/response.rs"]),
+        M("c06_removes_before_adds", "whole ConfigState::diff (597 blocks), every loop unrolled once more", "for HTTP / HTTPS / TCP / UDP frontends the Remove requests and the Add requests are emitted by different loops, the Remove loop first, both reachable", ST, prop="c06", which="order"),
+        M("c06_listeners_compared_as_stored", "whole ConfigState::diff", "for each listener kind, the comparison made for an address present in both states takes the two BTreeMap entries themselves (one indexed from self, one from other) as operands", ST, prop="c06", which="listeners_compared"),
     ],
 }
 
@@ -362,16 +366,19 @@ BS = ["bin/src/command/server.rs", "bin/src/command/requests.rs"]
 REGISTRY["C09"] = {
     "engine": "mir",
     "technique": "symbolic execution of the MIR of the master's task-finishing functions into SMT (z3 + cvc5): flag propagation, verdict function, response accounting",
-    "level_text": "The real compiled MIR of CommandHub::handle_finishing_task, WorkerTask::on_finish and DefaultGatherer::on_message is executed symbolically with every callee uninterpreted; z3 and cvc5 both decide that (1) the timed_out flag that reaches GatheringTask::on_finish equals the flag the run loop passed, on every path, and on_finish is called exactly once; (2) finish_ok is reached only with errors == 0 and not timed out, finish_failure only with a reason, and every returning path answers the client exactly once; (3) one worker message advances at most one terminal counter, by exactly one, and is archived exactly once. Composition of (1) and (2) is the property's 'silent worker => failure'.",
-    "level_note": "Single functions; the run loop's deadline test, scatter_on's in-flight registration, worker close handling and interleavings of several clients are HashMap/mio state and are outside the claim. WorkerTask::on_finish's response-log loop is unrolled twice (its body only builds message strings).",
+    "level_text": "The real compiled MIR of CommandHub::handle_finishing_task, WorkerTask::on_finish and DefaultGatherer::on_message is executed symbolically with every callee uninterpreted; z3 and cvc5 both decide that (1) the timed_out flag that reaches GatheringTask::on_finish equals the flag the run loop passed, on every path, and on_finish is called exactly once; (2) finish_ok is reached only with errors == 0 and not timed out, finish_failure only with a reason, and every returning path answers the client exactly once; (3) one worker message advances at most one terminal counter, by exactly one, and is archived exactly once. Composition of (1) and (2) is the property's 'silent worker => failure'. Also decided: (4) scatter_on counts every live worker it addresses in the gatherer's expected total whether or not the request could be queued; (5) the upgrade hand-over copies the four id counters verbatim; (6) each of the nine on_finish implementations of the bin crate sends at most one final answer on any path.",
+    "level_note": "Single functions; the run loop's deadline test, worker close handling and interleavings of several clients are HashMap/mio state and are outside the claim. WorkerTask::on_finish's response-log loop is unrolled twice (its body only builds message strings).",
     "rule": "C09: one obligation per function.",
     "trusted_base": [],
     "assumptions": ["uninterpreted callees (audit emission, string building, client channel writes) do not change errors / timed_out"],
-    "residual": "run loop scheduling, scatter_on registering one in-flight id per live worker, late/duplicate answers after in_flight purge, worker disconnect, hub liveness, other GatheringTask implementations (query / load-state / status tasks).",
+    "residual": "run loop scheduling, late/duplicate answers after in_flight purge, worker disconnect, hub liveness, what the other GatheringTask implementations (query / load-state / status tasks) put in their single answer.",
     "obligations": [
         M("c09_timeout_flag_propagates", "whole function, all paths; callees uninterpreted", "the flag operand of GatheringTask::on_finish equals the timed_out parameter on every path; on_finish is reached on every returning path", BS[:1], prop="c09", which="flag"),
         M("c09_verdict_function", "whole function; response loop unrolled 2x; callees uninterpreted", "finish_ok => errors == 0 and not timed_out; finish_failure => errors > 0 or timed_out; exactly one of them on every returning path", BS[1:], prop="c09", which="verdict"),
         M("c09_gatherer_accounting", "whole function; arbitrary counters and status", "at most one of ok/errors is written per message, each as old+1; the message is pushed to the response log on every path; has_finished is exactly ok + errors >= expected_responses (archived Processing notices do not count)", BS[:1], prop="c09", which="gatherer"),
+        M("c09_scatter_registers_every_worker", "whole Server::scatter_on, worker loop unrolled once more; iterator, send, map insert uninterpreted", "a worker the liveness filter yields is sent the request, registered in in_flight and counted in the expected responses on every path through the loop body, whatever send reports", ["bin/src/command/server.rs"], prop="c09", which="scatter"),
+        M("c09_upgrade_keeps_id_counters", "whole CommandHub::from_upgrade_data", "on the Ok path each of next_client_id / next_session_id / next_task_id / next_worker_id of the upgrade data is stored into the same-named field of the new Server (answers are routed by id strings that embed the task id)", ["bin/src/command/server.rs", "bin/src/command/upgrade.rs"], prop="c09", which="upgrade_ids"),
+        M("c09_on_finish_answers_once", "every GatheringTask::on_finish in the bin crate (9 implementations)", "no two final-answer calls (finish_ok / finish_ok_with_content / finish_failure) are reachable on one path", ["bin/src/command/requests.rs", "bin/src/command/sessions.rs"], prop="c09", which="finish_once"),
     ],
 }
 
